@@ -1,6 +1,7 @@
 import Jap.Core.Sources
 import Jap.Lemmas.SourcesTop
 import Jap.Lemmas.SourcesCall
+import Jap.Lemmas.SourcesSub
 import Jap.Gen.SourcesOrder
 /-!
 # C04 — Sources override each other in the documented order, left to right
@@ -37,6 +38,15 @@ Second part (the arguments of the call): `defaults=`, `env=`, `parse_env(mapping
 the environment layer assigns leaf by leaf: `C04_env_var_step_frame`, `C04_env_var_keeps_siblings`.
 `parse_string(defaults=False)` without `env=True` merges nothing at all (`C04_string_nodefaults`, witness
 `C04_string_nodefaults_counterexample`, open finding C04-string-nodefaults).
+
+Third part (subcommand levels, Core/SourcesSub.lean): the `default_env` property setter over the parser tree (`setEnv`: resolve,
+store, call the SETTER of every sub-parser) — `C04_setter_uniform`, `C04_setter_history`, `C04_setter_path_flags`,
+`C04_build_uniform`: after any history of assignments at the root every parser of the tree holds the same flag
+(`C04_setter_shallow_counterexample`: not so if the flag were assigned to the direct sub-parsers only); `root.parse_args` along
+a path of subcommands = every level's own pipeline followed by the `handle_subcommands` merges of ALL enclosing parsers:
+`C04_order_depth_partial` / `C04_order_tree_after_setter` (the order of sources holds at every depth, any number of sources per
+level, `defaults=False` included, when the parsers of the path agree on reading the environment), `C04_handle_keeps_own`,
+`C04_order_depth_nonuniform_counterexample` (it fails when they do not agree: an environment variable then loses against a default).
 -/
 namespace Jap.Props.C04
 open Jap.NS Jap.Src Jap.Gen
@@ -413,6 +423,113 @@ example : getK [kq "n"] (parseArgs Pq Sq) = some (.atom 5)
     ∧ getK [kq "g", kq "o"] (parseArgs Pq Sq) = some (.atom 7)
     ∧ getK [kq "d"] (parseArgs Pq Sq) = some (.dct [(kq "a", .atom 1)]) := ⟨rfl, rfl, rfl, rfl⟩
 
+
+/-! ## the `default_env` switch over the parser tree -/
+
+/-- one call of the setter, anywhere in a program's life: EVERY parser of the tree below holds the resolved value
+    afterwards (`JSONARGPARSE_DEFAULT_ENV` = true/false wins over the assigned value), at any depth -/
+theorem C04_setter_uniform (os : Option String) (b : Bool) (t : PT) :
+    uniformB (effectiveDefaultEnv os b) (setEnv os b t) = true := setEnv_uniform os b t
+
+/-- any history of setter calls on the root (each under its own value of the OS variable): the LAST call decides, and it
+    decides for every parser of the tree -/
+theorem C04_setter_history (hist : List (Option String × Bool)) (t : PT) (os : Option String) (b : Bool) :
+    uniformB (effectiveDefaultEnv os b) ((hist ++ [(os, b)]).foldl (fun t c => setEnv c.1 c.2 t) t) = true :=
+  rootSetters_uniform hist t os b
+
+/-- hence along every path of subcommand names all parsers read the environment, or none does -/
+theorem C04_setter_path_flags (os : Option String) (b : Bool) (t : PT) (path : List String) :
+    ∀ f ∈ flagsOn path (setEnv os b t), f = effectiveDefaultEnv os b :=
+  flagsOn_uniform _ path _ (setEnv_uniform os b t)
+
+/-- a tree built in level order is uniform from the start, whatever `default_env=` the sub-parsers were constructed with -/
+theorem C04_build_uniform (os : Option String) (rootCtor : Bool) (shape : PT) :
+    uniformB (effectiveDefaultEnv os rootCtor) (build os rootCtor shape) = true := setEnv_uniform os rootCtor shape
+
+private def T3 : PT := .node false [("s1", .node false [("s2", .node false []), ("t2", .node false [])]), ("x1", .node false [])]
+
+/-- non-vacuity, and the reason the recursion must go through the SETTER: assigning the flag to the direct sub-parsers
+    only (`subparser._default_env = …`) leaves the second level behind -/
+theorem C04_setter_shallow_counterexample :
+    flagsOn ["s1", "s2"] (setEnv .none true T3) = [true, true, true]
+    ∧ flagsOn ["s1", "s2"] (setEnvShallow .none true T3) = [true, true, false]
+    ∧ uniformB true (setEnvShallow .none true T3) = false := ⟨rfl, rfl, rfl⟩
+
+example : flagsOn ["s1", "t2"] (runSetters [([], some "yes", true), (["s1"], .none, false), ([], some "FALSE", true), ([], .none, true)] T3)
+    = [true, true, true] := rfl
+example : flagsOn ["s1", "t2"] (runSetters [([], .none, true), (["s1"], .none, false)] T3) = [true, false, false] := rfl
+
+/-! ## precedence at every depth of a subcommand tree -/
+
+/-- THE ORDER OF SOURCES AT EVERY LEVEL of the chosen path, any depth, any number of sources per level: when all parsers
+    of the path read the environment exactly when the root call does (`b`; this is what the setter theorems give, or an
+    explicit `env=` argument), the value every level's argument ends with — after the level's own `parse_args` and the
+    `handle_subcommands` merges of ALL enclosing parsers — is the left fold of that level's sources in the documented order -/
+theorem C04_order_depth_partial (c : Call) (b : Bool) :
+    ∀ (lv : List Level) (anc : List Bool), (∀ e ∈ anc, e = b) → (∀ L ∈ lv, envRead L.p c.envArg = b) →
+      (∀ L ∈ lv, wfParser L.p = true ∧ srcWfC L.p L.src c = true) →
+      ∀ x ∈ List.zip lv (parseLevels c anc lv), ∀ a ∈ x.1.p.args,
+        (c.defaults = true → b = true → envPlain x.1.p (environOf x.1.src c) a.dest = true) →
+        getK a.dest x.2 = getK a.dest (refFold (asgAllC x.1.p x.1.src { c with envArg := some b }) [])
+  | [], _, _, _, _, x, hx => by simp [parseLevels] at hx
+  | L :: rest, anc, hanc, hfl, hwf, x, hx => by
+    intro a ha hg
+    have hL := hfl L List.mem_cons_self
+    simp only [parseLevels, List.zip_cons_cons, List.mem_cons] at hx
+    rcases hx with hx | hx
+    · subst hx
+      obtain ⟨hp, hs⟩ := hwf L List.mem_cons_self
+      have h1 := (finalLevel_eq_own hp ha c hs anc (fun e he => (hanc e he).trans hL.symm)).1
+      have h2 := C04_order_call_partial L.p L.src c hp hs a ha (fun hd he => hg hd (hL.symm.trans he))
+      have h3 : asgAllC L.p L.src { c with envArg := some b } = asgAllC L.p L.src c := by
+        have e1 : envRead L.p (some b) = envRead L.p c.envArg := by rw [hL]; rfl
+        simp only [asgAllC, asgBaseC, environOf, e1]
+      show getK a.dest (finalLevel c anc L) = _
+      rw [h1, h3]
+      exact h2
+    · exact C04_order_depth_partial c b rest (envRead L.p c.envArg :: anc)
+        (fun e he => by
+          rcases List.mem_cons.mp he with h | h
+          · rw [h]; exact hL
+          · exact hanc e h)
+        (fun L' h' => hfl L' (List.mem_cons_of_mem _ h')) (fun L' h' => hwf L' (List.mem_cons_of_mem _ h')) x hx a ha hg
+
+/-- the two halves together — one history on one parser tree: after `root.default_env = b` (under any value of the OS
+    variable, after any earlier history) `root.parse_args` along ANY path of subcommands gives, at every level, the fold of
+    that level's sources with the environment read at every level iff the resolved flag says so -/
+theorem C04_order_tree_after_setter (c : Call) (hc : c.envArg = .none) (os : Option String) (b : Bool) (t : PT)
+    (path : List String) (lv : List Level) (hlen : lv.length ≤ (flagsOn path (setEnv os b t)).length)
+    (hwf : ∀ L ∈ flagLevels lv (flagsOn path (setEnv os b t)), wfParser L.p = true ∧ srcWfC L.p L.src c = true) :
+    ∀ x ∈ List.zip (flagLevels lv (flagsOn path (setEnv os b t))) (parseTree c (setEnv os b t) path lv), ∀ a ∈ x.1.p.args,
+      (c.defaults = true → effectiveDefaultEnv os b = true → envPlain x.1.p (environOf x.1.src c) a.dest = true) →
+      getK a.dest x.2 = getK a.dest (refFold (asgAllC x.1.p x.1.src { c with envArg := some (effectiveDefaultEnv os b) }) []) := by
+  apply C04_order_depth_partial c (effectiveDefaultEnv os b) _ [] (by simp) _ hwf
+  intro L hL
+  rw [hc]
+  exact flagLevels_envRead _ lv _ hlen (C04_setter_path_flags os b t path) L hL
+
+/-- `handle_subcommands` never changes what a level's own parse left at a destination, as long as the enclosing parsers
+    agree with the level about reading the environment; `defaults=False` included -/
+theorem C04_handle_keeps_own (L : Level) (c : Call) (hp : wfParser L.p = true) (hs : srcWfC L.p L.src c = true)
+    (a : Arg) (ha : a ∈ L.p.args) (anc : List Bool) (hanc : ∀ e ∈ anc, e = envRead L.p c.envArg) :
+    getK a.dest (finalLevel c anc L) = getK a.dest (ownParse c L) := (finalLevel_eq_own hp ha c hs anc hanc).1
+
+/-- the second level of `app s1 s2`: `--v` (int, 1) with `APP_S1__S2__V=5` in the environment -/
+private def L2 (flag : Bool) : Level :=
+  ⟨"s2", withFlag (subParser (subParser ⟨[], some "APP", false, .none⟩ "s1" ⟨[], .none, false, .none⟩) "s2"
+      ⟨[⟨[kq "v"], .scalar, .atom 1⟩], .none, false, .none⟩) flag, ⟨[], [("APP_S1__S2__V", .atom 5)], []⟩⟩
+
+example : envName (L2 true).p ⟨[kq "v"], .scalar, .atom 1⟩ = "APP_S1__S2__V" := by decide
+example : wfParser (L2 true).p = true ∧ srcWfC (L2 true).p (L2 true).src {} = true := by decide
+
+/-- the state the seeded setter leaves (root and first level on, second level off): the enclosing parsers merge the
+    environment UNDER the namespace the second level already completed with its defaults, so the variable loses against
+    the default — while in the uniform state it wins.  The hypothesis "all parsers of the path agree" is what the property needs -/
+theorem C04_order_depth_nonuniform_counterexample :
+    getK [kq "v"] (finalLevel {} [true, true] (L2 false)) = some (.atom 1)
+    ∧ getK [kq "v"] (refFold (asgAllC (L2 false).p (L2 false).src { envArg := some true }) []) = some (.atom 5)
+    ∧ getK [kq "v"] (finalLevel {} [true, true] (L2 true)) = some (.atom 5) := ⟨rfl, rfl, rfl⟩
+
 /-! ## the full statement fails for `key+` in the environment config (open finding C04-envcfg-append) -/
 
 /-- `APP_CFG='{"g": {"l+": [7]}}'`, nothing else -/
@@ -445,7 +562,9 @@ theorem C04_same_content_as_default_config_file :
     the three loops of `_load_env_vars` starting from an empty namespace, the order of default config files
     (patterns as listed, matches sorted, applied in that order), `apply_appends` and `ActionTypeHint.__call__` reading
     the RUNNING value (`cfg=cfg`), the append / NestedArg branches of `adapt_typehints`, `Namespace.update`,
-    `get_env_var`, the `default_env` setter, how every parse method calls `_parse_defaults_and_environ` (and under which
+    `get_env_var`, the WHOLE `default_env` setter (its loop over the sub-parsers calling the setter again included),
+    what `add_subcommand` hands to a sub-parser (`env_prefix`, `default_env`, level order), `_ActionSubCommands.__call__`,
+    `handle_subcommands`, the `env` resolution of `_parse_common`, `parse_env`, the `parse_kwargs_context` of `parse_args`, how every parse method calls `_parse_defaults_and_environ` (and under which
     condition: `parse_string` only `if defaults or env`; `parse_env` with `env=True, environ=env`; `if environ is None`):
     exactly what `Core/Sources.lean` was transcribed from.  An edit to
     any of these breaks this theorem, i.e. the tie between the model and the code. -/
@@ -465,8 +584,15 @@ theorem C04_transcription_pin :
     SourcesOrder.adaptFacts = ["if prev_val is None:\n                prev_val = []", "val = prev_val + (val if val_is_list else [val])", "if isinstance(prev_val, dict):\n                val = {**prev_val, val.key: val.val}\n            else:\n                val = {val.key: val.val}"] ∧
     SourcesOrder.updateBody = ["if not isinstance(value, Namespace)", "if not key", "raise NSKeyError('Key is required if value not a Namespace.')", "if not only_unset or key not in self", "self[key] = value", "else", "prefix = key + '.' if key else ''", "for (key, val) in value.items()", "if not only_unset or prefix + key not in self", "self[prefix + key] = val", "return self"] ∧
     SourcesOrder.envVarBody = ["if isinstance(parser_or_formatter, DefaultHelpFormatter)", "env_var = ''", "if isinstance(parser.env_prefix, str)", "env_var = parser.env_prefix.replace('-', '_') + '_'", "if action", "env_var += action.dest", "env_var = env_var.replace('.', '__').upper()"] ∧
-    SourcesOrder.defaultEnvSetter = ["os_default_env = os.getenv('JSONARGPARSE_DEFAULT_ENV', '').lower()", "if os_default_env in {'true', 'false'}", "self._default_env = os_default_env == 'true'", "else", "if isinstance(default_env, bool)"] ∧
+    SourcesOrder.defaultEnvSetter = ["os_default_env = os.getenv('JSONARGPARSE_DEFAULT_ENV', '').lower()", "if os_default_env in {'true', 'false'}", "self._default_env = os_default_env == 'true'", "else", "if isinstance(default_env, bool)", "self._default_env = default_env", "else", "raise ValueError('default_env expects a boolean.')", "if self._subcommands_action", "for subparser in self._subcommands_action._name_parser_map.values()", "subparser.default_env = self._default_env"] ∧
+    SourcesOrder.subInherit = ["if parser._subparsers is not None", "raise ValueError('Multiple levels of subcommands must be added in level order.')", "parser.env_prefix = f'{self.env_prefix}{name}_'", "parser.default_env = self.parent_parser.default_env", "subcommands.env_prefix = get_env_var(self)"] ∧
+    SourcesOrder.subCallBody = ["subcommand = values[0]", "arg_strings = values[1:]", "namespace[self.dest] = subcommand", "if subcommand in self._name_parser_map", "subparser = self._name_parser_map[subcommand]", "subnamespace = namespace.get(subcommand) if subcommand in namespace else None", "if subnamespace is not None", "_check_subcommand_settings(subcommand, subnamespace)", "subnamespace = subnamespace.clone()", "kwargs = dict(_skip_validation=True, **parse_kwargs.get())", "namespace[subcommand] = subparser.parse_args(arg_strings, namespace=subnamespace, **kwargs)"] ∧
+    SourcesOrder.handleSubcommandsBody = ["subcommands, subparsers = _ActionSubCommands.get_subcommands(parser, cfg, prefix=prefix, fail_no_subcommand=fail_no_subcommand)", "if not subcommands or not subparsers", "return", "for (subcommand, subparser) in zip(subcommands, subparsers)", "subnamespace = None", "key = prefix + subcommand", "if env", "subnamespace = subparser.parse_env(defaults=defaults, _skip_validation=True)", "else", "if defaults", "subnamespace = subparser.get_defaults(skip_validation=True)", "if cfg.get(key) is not None", "_check_subcommand_settings(key, cfg.get(key))", "if subnamespace is not None", "cfg[key] = subparser.merge_config(cfg.get(key) or Namespace(), subnamespace)", "if subparser._subparsers is not None", "_ActionSubCommands.handle_subcommands(subparser, cfg, env, defaults, key + '.', fail_no_subcommand=fail_no_subcommand)"] ∧
+    SourcesOrder.handleSubcommandsWith = ["parent_parsers_context(key, parser)"] ∧
+    SourcesOrder.parseCommonEnv = ["if env is None and self._default_env", "env = True", "if not skip_subcommands", "_ActionSubCommands.handle_subcommands(self, cfg, env=env, defaults=defaults, fail_no_subcommand=fail_no_subcommand)"] ∧
+    SourcesOrder.parseArgsWith = ["_ActionSubCommands.parse_kwargs_context({'env': env, 'defaults': defaults})"] ∧
+    SourcesOrder.parseEnvBody = ["skip_validation, skip_subcommands = get_private_kwargs(kwargs, _skip_validation=False, _skip_subcommands=False)", "cfg = self._parse_defaults_and_environ(defaults, env=True, environ=env)", "kwargs = {'env': True, 'defaults': defaults, 'with_meta': with_meta, 'skip_validation': skip_validation, 'skip_subcommands': skip_subcommands}", "kwargs['fail_no_subcommand'] = False", "parsed_cfg = self._parse_common(cfg=cfg, **kwargs)"] ∧
     SourcesOrder.loadEnvStart = "cfg = Namespace()" := by
-  exact ⟨rfl, rfl, rfl, rfl, rfl, rfl, rfl, rfl, rfl, rfl, rfl, rfl, rfl, rfl, rfl, rfl, rfl⟩
+  exact ⟨rfl, rfl, rfl, rfl, rfl, rfl, rfl, rfl, rfl, rfl, rfl, rfl, rfl, rfl, rfl, rfl, rfl, rfl, rfl, rfl, rfl, rfl, rfl, rfl⟩
 
 end Jap.Props.C04
